@@ -5,12 +5,16 @@ open Driver Impl.Session Impl.BigMap
 /-! line protocol: one session per line, cells separated by `|`, instructions by blanks:
 
   basic      `push:N some none unit ebm update get mem gau dup drop swap pair car cdr nil add failwith`
-  sections   `storage:T` `parameter:T` (T = unit | nat | bm | pbn | pbb | onat) `code:b,b,…`
+             `dropn:N dig:N dug:N dupn:N` (N ≥ 1 for `dupn`) `amount balance now sender source`
+  DIP        `dip{ … }` and `dip:N{ … }` — the closing brace is its own token; bodies nest
+  sections   `storage:T` `parameter:T` (T = unit | nat | bm | pbn | pbb | onat) `code:b,b,…` (same tokens, `,` for blank)
   jupyter    `begin:L:L` `run:L:L` `commit` `dropall` `bmd` `parseerror`
+             `patch:F` `patch:F:V`  (F = AMOUNT | BALANCE | CHAIN_ID | SENDER | SOURCE | NOW; V = `iN` int, `e` empty
+             string, `aK` address K of the harness table, `xK` another non-empty string)
   literal L  `U` | `iN` | `s` / `sK=V,K=V` | `P(L;L)`
 
-output: per cell `F` or `ok <outs>`, then the stack (every big map with the contents of the context it points at)
-and the interpreter's context; cells joined by ` | `.  `unrecognised-source` / `bad-op` as usual. -/
+output: per cell `F@<protected when the cell raised>` or `ok <outs>`, then the stack (every big map with the contents of the context it points at), its
+`protected` counter and the interpreter's context; cells joined by ` | `.  `unrecognised-source` / `bad-op` as usual. -/
 
 def parseTy : String → Option Ty
   | "unit" => some .unit
@@ -29,6 +33,9 @@ def showTy : Ty → String
   | .pair a b => s!"pair({showTy a},{showTy b})"
   | .bigmap => "bm"
   | .listOp => "listop"
+  | .mutez => "mutez"
+  | .timestamp => "timestamp"
+  | .address => "address"
 
 def parseBasic (s : String) : Option Basic :=
   match s.splitOn ":" with
@@ -50,6 +57,44 @@ def parseBasic (s : String) : Option Basic :=
   | ["nil"] => some .nilOp
   | ["add"] => some .add
   | ["failwith"] => some .failwith
+  | ["dropn", n] => n.toNat?.map .dropn
+  | ["dig", n] => n.toNat?.map .dig
+  | ["dug", n] => n.toNat?.map .dug
+  | ["dupn", n] => n.toNat?.bind fun k => if k = 0 then none else some (.dupn (k - 1))
+  | ["amount"] => some .amount
+  | ["balance"] => some .balance
+  | ["now"] => some .now
+  | ["sender"] => some .sender
+  | ["source"] => some .source
+  | _ => none
+
+/-- tokens → programs, up to the closing brace of the enclosing body (left in the rest) or the end -/
+def parseProgs {α : Type} (leaf : String → Option α) : Nat → List String → Option (List (Prog α) × List String)
+  | 0, _ => none
+  | _ + 1, [] => some ([], [])
+  | _ + 1, "}" :: rest => some ([], "}" :: rest)
+  | f + 1, tok :: rest =>
+    let dipCount : Option (Option Nat) :=
+      if tok = "dip{" then some none
+      else if tok.startsWith "dip:" && tok.endsWith "{" then
+        (((tok.drop 4).toString.dropEnd 1).toString.toNat?).map some
+      else none
+    match dipCount with
+    | some cnt =>
+      match parseProgs leaf f rest with
+      | some (body, "}" :: rest') =>
+        (parseProgs leaf f rest').map fun r =>
+          ((match cnt with | none => Prog.dip body | some n => Prog.dipn n body) :: r.1, r.2)
+      | _ => none
+    | none =>
+      if tok.startsWith "dip" then none else
+      match leaf tok with
+      | some a => (parseProgs leaf f rest).map fun r => (.op a :: r.1, r.2)
+      | none => none
+
+def parseAll {α : Type} (leaf : String → Option α) (toks : List String) : Option (List (Prog α)) :=
+  match parseProgs leaf (toks.length + 1) toks with
+  | some (ps, []) => some ps
   | _ => none
 
 def showBasic : Basic → String
@@ -57,6 +102,18 @@ def showBasic : Basic → String
   | .some => "some" | .none_ _ => "none" | .unit => "unit" | .emptyBigMap => "ebm" | .update => "update" | .get => "get"
   | .mem => "mem" | .getAndUpdate => "gau" | .dup => "dup" | .drop => "drop" | .swap => "swap" | .pair => "pair"
   | .car => "car" | .cdr => "cdr" | .nilOp => "nil" | .add => "add" | .failwith => "failwith"
+  | .dropn n => s!"dropn:{n}" | .dig n => s!"dig:{n}" | .dug n => s!"dug:{n}" | .dupn d => s!"dupn:{d + 1}"
+  | .amount => "amount" | .balance => "balance" | .now => "now" | .sender => "sender" | .source => "source"
+
+mutual
+def showProg {α : Type} (leaf : α → String) : Prog α → List String
+  | .op a => [leaf a]
+  | .dip body => "dip{" :: showProgs leaf body ++ ["}"]
+  | .dipn n body => s!"dip:{n}\{" :: showProgs leaf body ++ ["}"]
+def showProgs {α : Type} (leaf : α → String) : List (Prog α) → List String
+  | [] => []
+  | p :: ps => showProg leaf p ++ showProgs leaf ps
+end
 
 def parseElt (s : String) : Option (Nat × Nat) :=
   match s.splitOn "=" with
@@ -89,6 +146,23 @@ def parseLit' (s : String) : Option Lit :=
   | some (l, []) => some l
   | _ => none
 
+def parseField : String → Option Field
+  | "AMOUNT" => some .amount
+  | "BALANCE" => some .balance
+  | "CHAIN_ID" => some .chainId
+  | "SENDER" => some .sender
+  | "SOURCE" => some .source
+  | "NOW" => some .now
+  | _ => none
+
+def parsePatchVal (s : String) : Option PatchVal :=
+  match s.toList with
+  | ['e'] => some (.str .empty)
+  | 'i' :: r => (String.ofList r).toInt?.map .int
+  | 'a' :: r => (String.ofList r).toNat?.map fun k => .str (.addr k)
+  | 'x' :: r => (String.ofList r).toNat?.map fun k => .str (.other k)
+  | _ => none
+
 def parseInstr (s : String) : Option Instr :=
   match parseBasic s with
   | some b => some (.basic b)
@@ -98,7 +172,9 @@ def parseInstr (s : String) : Option Instr :=
     | ["parameter", t] => (parseTy t).map .declParam
     | "code" :: rest =>
       let bs := joinWith ":" rest
-      (if bs = "" then some [] else (bs.splitOn ",").mapM parseBasic).map .declCode
+      (if bs = "" then some [] else parseAll parseBasic (bs.splitOn ",")).map .declCode
+    | ["patch", f] => (parseField f).map fun f => .patch f none
+    | ["patch", f, v] => do let f ← parseField f; let v ← parsePatchVal v; pure (.patch f (some v))
     | ["begin", p, st] => do let p ← parseLit' p; let st ← parseLit' st; pure (.begin_ p st)
     | ["run", p, st] => do let p ← parseLit' p; let st ← parseLit' st; pure (.run p st)
     | ["commit"] => some .commit
@@ -128,13 +204,27 @@ def showOptTy : Option Ty → String
   | some t => showTy t
   | none => "-"
 
+def showOptInt : Option Int → String
+  | some n => toString n
+  | none => "-"
+
+def showStr : Str → String
+  | .empty => "e"
+  | .addr i => s!"a{i}"
+  | .other i => s!"x{i}"
+
+def showOptStr : Option Str → String
+  | some x => showStr x
+  | none => "-"
+
 def showCtx : Option Impl.Session.Ctx → String
   | none => "dangling"
   | some c =>
     let code := match c.code with
-      | some bs => joinWith "," (bs.map showBasic)
+      | some bs => joinWith "," (showProgs showBasic bs)
       | none => "-"
-    s!"ctx(st={showOptTy c.storageTy};pt={showOptTy c.paramTy};code={code};{showBig c.big})"
+    let env := s!"am={showOptInt c.amount};ba={showOptInt c.balance};now={showOptInt c.now};se={showOptStr c.sender};so={showOptStr c.source};ch={showOptStr c.chainId}"
+    s!"ctx(st={showOptTy c.storageTy};pt={showOptTy c.paramTy};code={code};{showBig c.big};{env})"
 
 /-- a value; `look` renders what a big map's context reference points at (`none`: do not show) -/
 def showVal {ρ : Type} (look : Option (ρ → String)) : Val ρ → String
@@ -146,6 +236,10 @@ def showVal {ρ : Type} (look : Option (ρ → String)) : Val ρ → String
   | .some v => s!"Some({showVal look v})"
   | .pair a b => s!"Pair({showVal look a},{showVal look b})"
   | .nilOp => "[]"
+  | .mutez n => s!"mutez:{n}"
+  | .timestamp z => s!"ts:{z}"
+  | .address .dummy => "addr:dummy"
+  | .address (.known i) => s!"addr:a{i}"
   | .bigmap b r =>
     match look with
     | some f => s!"{showBM b}@{f r}"
@@ -171,19 +265,28 @@ def showState (σ : State) : String :=
     match σ.heap[r]? with
     | some c => showBig c.big
     | none => "dangling"
-  s!"stack {joinWith " " (σ.stack.map (showVal (some look)))} ; {showCtx σ.heap[σ.cur]?}"
+  s!"stack {joinWith " " (σ.stack.items.map (showVal (some look)))} ; prot={σ.stack.prot} ; {showCtx σ.heap[σ.cur]?}"
 
-def runCells (rb : Bool) : State → List Cell → List String
+/-- the `protected` counter of the live stack object at the moment the cell raised (what an in-place restore keeps) -/
+def failProt (σ : State) (c : Cell) : String :=
+  match σ.heap[σ.cur]? with
+  | none => "?"
+  | some ctx =>
+    match runInstrs heapStore σ.cur c σ.stack (σ.heap ++ [ctx]) with
+    | (.error f, _) => toString f.prot
+    | (.ok _, _) => "?"
+
+def runCells (rb : Cfg) : State → List Cell → List String
   | _, [] => []
   | σ, c :: cs =>
     let r := cellWith rb σ c
     let head := match r.2 with
-      | .failed => "F"
+      | .failed => s!"F@{failProt σ c}"
       | .ok outs => s!"ok {joinWith " " (outs.map showOut)}"
     s!"{head} ; {showState r.1}" :: runCells rb r.1 cs
 
 def handle (line : String) : String :=
-  match ((line.splitOn "|").map words).mapM (fun ws => ws.mapM parseInstr) with
+  match ((line.splitOn "|").map words).mapM (parseAll parseInstr) with
   | none => "bad-op"
   | some cells =>
     match Impl.Session.config, Impl.BigMap.config with
